@@ -102,4 +102,130 @@ def stripLoop (g : Graph) (isTask : Key → Bool) : Nat → StripSt → StripSt
 def strip (g : Graph) (isTask : Key → Bool) : StripSt :=
   stripLoop g isTask (g.length + 1) { alive := g.map Prod.fst, removed := [], stripped := [], dataRoots := [] }
 
+
+/-! ### decidable form of what the heuristic core must deliver (`CoreOK` in Lemmas/OrderFrame.lean) -/
+
+/-- `dependencies[k]` of the full graph (an unknown key has none) -/
+def depsOf (g : Graph) (k : Key) : List Key := (g.lookup k).getD []
+
+/-- walking the core order (`pre` = the keys already emitted): every dependency that is a core key was emitted before -/
+def coreTopoB (g : Graph) (core : List Key) : List Key → List Key → Bool
+  | _, [] => true
+  | pre, k :: post =>
+    (depsOf g k).all (fun d => !core.contains d || pre.contains d) && coreTopoB g core (k :: pre) post
+
+/-- the core emitted exactly the keys of `g` that are neither stripped (`S`) nor external, each once, dependencies first -/
+def coreOKb (g : Graph) (ext S core : List Key) : Bool :=
+  let gk := g.map Prod.fst
+  nodupB core &&
+  core.all (fun k => gk.contains k && !S.contains k && !ext.contains k) &&
+  gk.all (fun k => S.contains k || ext.contains k || core.contains k) &&
+  coreTopoB g core [] core
+
+
+/-! ### `ndependencies(dependencies, dependents)` and the cycle test of `order` -/
+
+/-- `result[k] = v` on the `result` dict, kept *newest key first*; an existing key keeps its position -/
+def rset (r : List (Key × Nat)) (k : Key) (v : Nat) : List (Key × Nat) :=
+  if (r.lookup k).isSome then r.map (fun e => if e.1 = k then (k, v) else e) else (k, v) :: r
+
+/-- `sum(result[child] for child in dependencies[key])`; `none` = KeyError -/
+def sumTotals (r : List (Key × Nat)) : List Key → Option Nat
+  | [] => some 0
+  | c :: cs =>
+    match r.lookup c, sumTotals r cs with
+    | some a, some b => some (a + b)
+    | _, _ => none
+
+/-- `for parent in dependents[key]: num_needed[parent] -= 1; if not num_needed[parent]: current_append(parent)`
+    (`cur`: the stack `current`, top = head); `none` = KeyError -/
+def relax : List Key → List (Key × Int) → List Key → Option (List (Key × Int) × List Key)
+  | [], need, cur => some (need, cur)
+  | p :: ps, need, cur =>
+    match need.lookup p with
+    | none => none
+    | some v => relax ps (dset need p (v - 1)) (if v - 1 = 0 then p :: cur else cur)
+
+/-- `for key in result: for parent in dependents[key]: …` (the roots, in insertion order) -/
+def ndRoots (dnts : Graph) : List Key → List (Key × Int) → List Key → Option (List (Key × Int) × List Key)
+  | [], need, cur => some (need, cur)
+  | k :: ks, need, cur =>
+    match dnts.lookup k with
+    | none => none
+    | some ps =>
+      match relax ps need cur with
+      | none => none
+      | some (need', cur') => ndRoots dnts ks need' cur'
+
+structure NdSt where
+  need : List (Key × Int)
+  result : List (Key × Nat)
+  current : List Key
+  deriving Repr
+
+inductive NdRes where
+  /-- `(num_dependencies, total_dependencies)`; the second dict newest key first -/
+  | ok (numDeps total : List (Key × Nat))
+  | keyError
+  deriving Repr, DecidableEq
+
+/-- `while current:`; outer `none` = fuel exhausted, inner `none` = KeyError -/
+def ndLoop (deps dnts : Graph) : Nat → NdSt → Option (Option (List (Key × Nat)))
+  | 0, _ => none
+  | fuel + 1, st =>
+    match st.current with
+    | [] => some (some st.result)
+    | key :: rest =>
+      match deps.lookup key with
+      | none => some none
+      | some ds =>
+        match sumTotals st.result ds with
+        | none => some none
+        | some s =>
+          match dnts.lookup key with
+          | none => some none
+          | some ps =>
+            match relax ps st.need rest with
+            | none => some none
+            | some (need', cur') =>
+              ndLoop deps dnts fuel { need := need', result := rset st.result key (1 + s), current := cur' }
+
+/-- the roots: `result[k] = 1` for every key without dependencies (oldest first) -/
+def ndRootKeys (deps : Graph) : List Key := (deps.filter (fun e => e.2.isEmpty)).map Prod.fst
+
+/-- `ndependencies(dependencies, dependents)`; `none` = fuel exhausted -/
+def ndependencies (deps dnts : Graph) (fuel : Nat) : Option NdRes :=
+  let need0 : List (Key × Int) := deps.map (fun e => (e.1, (e.2.length : Int)))
+  let roots := ndRootKeys deps
+  match ndRoots dnts roots need0 [] with
+  | none => some .keyError
+  | some (need1, cur1) =>
+    match ndLoop deps dnts fuel { need := need1, result := (roots.map (fun k => (k, 1))).reverse, current := cur1 } with
+    | none => none
+    | some none => some .keyError
+    | some (some total) => some (.ok (deps.map (fun e => (e.1, e.2.length))) total)
+
+/-- the fuel the driver uses: one iteration per key plus the final test -/
+def ndFuel (deps : Graph) : Nat := deps.length + 1
+
+/-- the `dependencies` / `dependents` mappings `order` hands to `ndependencies` after the normalisation loop -/
+def aliveDeps (g : Graph) (st : StripSt) : Graph := st.alive.map (fun k => (k, curDeps g st k))
+def aliveDependents (g : Graph) (st : StripSt) : Graph := st.alive.map (fun k => (k, curDependents g st k))
+
+inductive Prelude where
+  /-- `len(total_dependencies) != len(dsk)`: the branch that ends in `raise RuntimeError("Cycle detected …")` -/
+  | raisesCycle
+  | keyError
+  | proceeds (numNeeded total : List (Key × Nat))
+  deriving Repr, DecidableEq
+
+/-- `order` up to and including the cycle test; `none` = fuel exhausted -/
+def orderPrelude (g : Graph) (isTask : Key → Bool) (fuel : Nat) : Option Prelude :=
+  let st := strip g isTask
+  match ndependencies (aliveDeps g st) (aliveDependents g st) fuel with
+  | none => none
+  | some .keyError => some .keyError
+  | some (.ok nn total) =>
+    if total.length != st.alive.length then some .raisesCycle else some (.proceeds nn total)
+
 end Dask.Order
